@@ -751,6 +751,7 @@ func c17Keys(c *Ctx) {
 }
 
 var c17Canaries = []Canary{
+	{Name: "r6-empty-value-skipped", ExpectKey: "C17.O2#buffer:no-value-skipped", Edits: []Edit{{File: "creds/creds.go", Find: "\tbuf.Write([]byte(\"capability[]=state\\n\"))\n\tfor k, v := range c {\n\t\tfor _, item := range v {\n\t\t\tif strings.Contains(item, \"\\n\") {\n\t\t\t\treturn nil, errors.New(tr.Tr.Get(\"credential value for %s contains newline: %q\", k, item))\n\t\t\t}\n", Repl: "\tbuf.Write([]byte(\"capability[]=state\\n\"))\n\tfor k, v := range c {\n\t\tfor _, item := range v {\n\t\t\tif len(item) == 0 {\n\t\t\t\t// Nothing to send for this attribute; exec()\n\t\t\t\t// skips empty values on the way back, too.\n\t\t\t\tcontinue\n\t\t\t}\n\t\t\tif strings.Contains(item, \"\\n\") {\n\t\t\t\treturn nil, errors.New(tr.Tr.Get(\"credential value for %s contains newline: %q\", k, item))\n\t\t\t}\n"}}},
 	{Name: "r5-username-in-lookup-url", ExpectKey: "C17.O7#config-lookup-url", Edits: []Edit{{File: "creds/creds.go", Find: "\trawurl := fmt.Sprintf(\"%s://%s%s\", u.Scheme, u.Host, u.Path)", Repl: "\trawurl := fmt.Sprintf(\"%s://%s@%s%s\", u.Scheme, u.User.Username(), u.Host, u.Path)"}}},
 	{Name: "r4-blob-source-unrestricted", ExpectKey: "C17.C11/R3", Edits: []Edit{{File: "git/config.go", Find: "	out, err := c.gitConfig(\"-l\", \"--blob\", revision)\n	if err != nil {\n		return nil, err\n	}\n	return ParseConfigLines(out, true), nil", Repl: "	out, err := c.gitConfig(\"-l\", \"--blob\", revision)\n	if err != nil {\n		return nil, err\n	}\n	return ParseConfigLines(out, false), nil"}}},
 	{Name: "drop-lf-check", ExpectKey: "C17.O2", Edits: []Edit{{File: "creds/creds.go", Find: `if strings.Contains(item, "\n") {`, Repl: `if strings.Contains(k, "\n") {`}}},
